@@ -78,7 +78,7 @@ def run(rep, tier, only=None):
     hsrc = open('/verif/vf/pyast/h_c44_src.py').read()
     rep.functions += ['Cython/Compiler/LineTable.py (AST of the working tree): build_line_table, encode_single_position, '
                       'encode_location_short, encode_location_oneline, encode_location_start, encode_varint']
-    npos = 2 if tier == 'quick' else 3
+    npos = 2        # lists of 3 positions: z3 answers unknown after 600 s at a branch of the 3rd entry; longer lists are covered by the inductive step below, not by unrolling
     rep.bounds += ['positions: every start-sorted list of <= %d four-tuples, all line/column values symbolic in [0, 2^30), firstlineno in [1, 2^30)' % npos,
                    'encode_varint: all values in [0, 2^32); loop unwound 8 with unwinding assertion',
                    'compositional: level 1 proves encode_varint(v) is a self-delimiting code of v under the reference varint reader; '
